@@ -40,6 +40,8 @@ def encN (nS nM : Nat) : Node → Enc → Except CErr Enc
         match encL nS nM tail (afterLPB e2 (brkCmd (e4.out.length - e2.out.length + 2))) with
         | .error x => .error x
         | .ok e4' => .ok (afterLPFB e4' n e.breaks)
+  | .xbrk, e => .ok e
+  | .call arg _, e => .ok (afterPAT e arg)
 def encL (nS nM : Nat) : List Node → Enc → Except CErr Enc
   | [], e => .ok e
   | t :: ts, e =>
@@ -56,7 +58,7 @@ def Tot (f : Enc → Except CErr Enc) (e : Enc) : Prop :=
 mutual
 theorem encN_total (nS nM : Nat) : ∀ (t : Node), t.lin = true → ∀ e : Enc, Tot (encN nS nM t) e
   | .ev ev, hl, e => by
-    obtain ⟨e', h, p, b, sp, _⟩ := encEv_lin nS nM e ev (by simpa [Node.lin] using hl)
+    obtain ⟨e', h, p, b, sp⟩ := encEv_lin_total nS nM e ev (by simpa [Node.lin] using hl)
     exact ⟨e', by simpa [encN] using h, p, b, sp⟩
   | .loop body n, hl, e => by
     obtain ⟨e2, h2, p2, _, sp2⟩ := encL_total nS nM body (by simpa [Node.lin] using hl) (afterLP e)
@@ -70,6 +72,8 @@ theorem encN_total (nS nM : Nat) : ∀ (t : Node), t.lin = true → ∀ e : Enc,
       (afterLPB e2 (brkCmd (e4.out.length - e2.out.length + 2)))
     refine ⟨afterLPFB e4' n e.breaks, by simp [encN, h2, h4, h4'], ?_, rfl, sp4'.trans sp2⟩
     exact (List.prefix_append _ _).trans (p2.trans ((List.prefix_append _ _).trans (p4'.trans (List.prefix_append _ _))))
+  | .xbrk, _, e => ⟨e, rfl, List.prefix_refl _, rfl, rfl⟩
+  | .call arg _, _, e => ⟨afterPAT e arg, rfl, List.prefix_append _ _, rfl, rfl⟩
 theorem encL_total (nS nM : Nat) : ∀ (ts : List Node), linL ts = true → ∀ e : Enc, Tot (encL nS nM ts) e
   | [], _, e => ⟨e, rfl, List.prefix_refl _, rfl, rfl⟩
   | t :: ts, hl, e => by
@@ -142,6 +146,12 @@ theorem encN_par (nS nM : Nat) : ∀ (t : Node), t.lin = true → ∀ (e e2 e' :
             ⟨sim_afterLPB p1.sim _ _, ⟨_, rfl, rfl⟩, rfl⟩
           refine ⟨afterLPFB e4'2 n e2.breaks, by simp [encN, hb2, h42, hlen, h4'2], ?_⟩
           exact (((p0.trans p1).trans pc).trans q2).trans (par_afterLPFB q2.sim n _ _)
+  | .xbrk, _, e, e2, e', h, he => by
+    simp only [encN, Except.ok.injEq] at he; subst he
+    exact ⟨e2, rfl, Par.refl' h⟩
+  | .call arg _, _, e, e2, e', h, he => by
+    simp only [encN, Except.ok.injEq] at he; subst he
+    exact ⟨afterPAT e2 arg, rfl, Par.push h [mds_PAT, arg % 256] rfl rfl rfl rfl rfl rfl (.inl (by simp))⟩
 theorem encL_par (nS nM : Nat) : ∀ (ts : List Node), linL ts = true → ∀ (e e2 e' : Enc), SimE e e2 →
     encL nS nM ts e = .ok e' → ∃ e2', encL nS nM ts e2 = .ok e2' ∧ Par e e2 e' e2'
   | [], _, e, e2, e', h, he => by
@@ -204,12 +214,21 @@ mutual
 /-- **convert_structured_eq** (nodes): on every bracket structure over the linear fragment whose
 encoding stays below 64 KiB, `convert_track`'s event loop computes exactly the structured
 two-pass encoding -/
-theorem encN_eq (nS nM : Nat) : ∀ (t : Node), t.lin = true → ∀ (e e' : Enc), encN nS nM t e = .ok e' →
+theorem encN_eq (nS nM : Nat) : ∀ (t : Node) (top : Bool), t.lin = true → t.brkOk top = true → ∀ (e e' : Enc),
+    (top = true → e.breaks.head?.getD 0 ≠ 0) → encN nS nM t e = .ok e' →
     e'.out.length < 65536 → encAll nS nM e t.flat = .ok e'
-  | .ev ev, _, e, e', he, _ => by
+  | .ev ev, _, _, _, e, e', _, he, _ => by
     simp only [encN] at he
     simp [Node.flat, encAll, he]
-  | .loop body n, hl, e, e', he, hb => by
+  | .xbrk, top, _, hk, e, e', hbr, he, _ => by
+    simp only [encN, Except.ok.injEq] at he; subst he
+    have ht : top = true := by simpa [Node.brkOk] using hk
+    simp [Node.flat, encAll, encEv_xbrk nS nM e 0 (hbr ht)]
+  | .call arg _, _, _, _, e, e', _, he, _ => by
+    simp only [encN, Except.ok.injEq] at he; subst he
+    simp [Node.flat, encAll, encEv_pat]
+  | .loop body n, _, hl, hk, e, e', _, he, hb => by
+    have hk' : brkOkL false body = true := by simpa [Node.brkOk] using hk
     have hl' : linL body = true := by simpa [Node.lin] using hl
     cases h2 : encL nS nM body (afterLP e) with
     | error x => simp [encN, h2] at he
@@ -221,13 +240,14 @@ theorem encN_eq (nS nM : Nat) : ∀ (t : Node), t.lin = true → ∀ (e e' : Enc
       have hlen2 : e2.out.length < 65536 := by
         have : (afterLPF e2 n e.breaks).out.length = e2.out.length + 2 := by simp [afterLPF]
         omega
-      have ih := encL_eq nS nM body hl' _ _ h2 hlen2
+      have ih := encL_eq nS nM body false hl' hk' _ _ (fun h => by cases h) h2 hlen2
       have h1 : encEv nS nM e ⟨mds_LP, 0⟩ = .ok (afterLP e) := encEv_lp nS nM e 0
       have h3 : encEv nS nM e2 ⟨mds_LPF, n⟩ = .ok (afterLPF e2 n e.breaks) :=
         encEv_lpf_nobreak nS nM e2 n e.breaks (by rw [b2]; rfl)
       simp only [Node.flat, encAll, h1, encAll_append, ih, h3]
-  | .loopB body tail n, hl, e, e', he, hb => by
+  | .loopB body tail n, _, hl, hk, e, e', _, he, hb => by
     simp only [Node.lin, Bool.and_eq_true] at hl
+    simp only [Node.brkOk, Bool.and_eq_true] at hk
     cases h2 : encL nS nM body (afterLP e) with
     | error x => simp [encN, h2] at he
     | ok e2 =>
@@ -270,8 +290,10 @@ theorem encN_eq (nS nM : Nat) : ∀ (t : Node), t.lin = true → ∀ (e e' : Enc
           have hpos : e2.out.length ≠ 0 := by
             have := p2.length_le; simp [afterLP] at this; omega
           -- the real run
-          have ih2 := encL_eq nS nM body hl.1 _ _ h2 hlen2
-          have ih4 := encL_eq nS nM tail hl.2 _ _ h4r (by omega)
+          have ih2 := encL_eq nS nM body false hl.1 hk.1 _ _ (fun h => by cases h) h2 hlen2
+          have hbr3 : e3r.breaks.head?.getD 0 ≠ 0 := by
+            rw [he3r]; show e2.out.length % 65536 ≠ 0; omega
+          have ih4 := encL_eq nS nM tail true hl.2 hk.2 _ _ (fun _ => hbr3) h4r (by omega)
           obtain ⟨_, h4r', _, b4r, _⟩ := encL_total nS nM tail hl.2 e3r
           rw [h4r] at h4r'; injection h4r' with h4r'; subst h4r'
           have h1 : encEv nS nM e ⟨mds_LP, 0⟩ = .ok (afterLP e) := encEv_lp nS nM e 0
@@ -286,12 +308,14 @@ theorem encN_eq (nS nM : Nat) : ∀ (t : Node), t.lin = true → ∀ (e e' : Enc
             simp only [patched, afterLPFB, ho4', hs, List.append_assoc]
           rw [hfin] at h5
           simp only [Node.flat, encAll, h1, encAll_append, ih2, h3, ih4, h5]
-theorem encL_eq (nS nM : Nat) : ∀ (ts : List Node), linL ts = true → ∀ (e e' : Enc), encL nS nM ts e = .ok e' →
+theorem encL_eq (nS nM : Nat) : ∀ (ts : List Node) (top : Bool), linL ts = true → brkOkL top ts = true → ∀ (e e' : Enc),
+    (top = true → e.breaks.head?.getD 0 ≠ 0) → encL nS nM ts e = .ok e' →
     e'.out.length < 65536 → encAll nS nM e (flatL ts) = .ok e'
-  | [], _, e, e', he, _ => by
+  | [], _, _, _, e, e', _, he, _ => by
     simp only [encL, Except.ok.injEq] at he; subst he; rfl
-  | t :: ts, hl, e, e', he, hb => by
+  | t :: ts, top, hl, hk, e, e', hbr, he, hb => by
     simp only [linL, Bool.and_eq_true] at hl
+    simp only [brkOkL, Bool.and_eq_true] at hk
     cases h1 : encN nS nM t e with
     | error x => simp [encL, h1] at he
     | ok e1 =>
@@ -299,14 +323,17 @@ theorem encL_eq (nS nM : Nat) : ∀ (ts : List Node), linL ts = true → ∀ (e 
       obtain ⟨_, he', p2, _, _⟩ := encL_total nS nM ts hl.2 e1
       rw [he] at he'; injection he' with he'; subst he'
       have := p2.length_le
-      have ih1 := encN_eq nS nM t hl.1 _ _ h1 (by omega)
-      have ih2 := encL_eq nS nM ts hl.2 _ _ he hb
+      obtain ⟨_, h1', _, b1, _⟩ := encN_total nS nM t hl.1 e
+      rw [h1] at h1'; injection h1' with h1'; subst h1'
+      have ih1 := encN_eq nS nM t top hl.1 hk.1 _ _ hbr h1 (by omega)
+      have ih2 := encL_eq nS nM ts top hl.2 hk.2 _ _ (fun ht => by rw [b1]; exact hbr ht) he hb
       simp only [flatL, encAll_append, ih1, ih2]
 end
 
 /-- **convert_structured_eq**: `convert_track` = the structured two-pass encoder (streams < 64 KiB) -/
-theorem convert_structured_eq (nS nM : Nat) (ts : List Node) (hl : linL ts = true) (e' : Enc)
-    (h : encL nS nM ts {} = .ok e') (hb : e'.out.length < 65536) : convertTrack nS nM (flatL ts) = .ok e'.out := by
-  simp [convertTrack, encL_eq nS nM ts hl {} e' h hb, Except.map]
+theorem convert_structured_eq (nS nM : Nat) (ts : List Node) (hl : linL ts = true) (hk : brkOkL false ts = true)
+    (e' : Enc) (h : encL nS nM ts {} = .ok e') (hb : e'.out.length < 65536) :
+    convertTrack nS nM (flatL ts) = .ok e'.out := by
+  simp [convertTrack, encL_eq nS nM ts false hl hk {} e' (fun h => by cases h) h hb, Except.map]
 
 end Ctrmml.Codec
